@@ -28,6 +28,7 @@
 #include <unifex/upon_error.hpp>
 #include <unifex/via.hpp>
 #include <unifex/when_all.hpp>
+#include <unifex/when_any.hpp>
 #include <unifex/with_query_value.hpp>
 
 #include <optional>
@@ -45,12 +46,12 @@ enum Kind {
   K_JUST, K_JUST_ERROR, K_JUST_DONE, K_LEAF,
   K_THEN, K_UPON_ERROR, K_UPON_DONE, K_LET_VALUE, K_LET_ERROR, K_LET_DONE,
   K_FINALLY, K_SEQUENCE, K_WHEN_ALL, K_STOP_WHEN, K_UNSTOPPABLE, K_VIA, K_ON,
-  K_WITH_TAG, K_MAT_DEMAT, K_DONE_AS_OPT, K_LVWSS, K_ANY_SENDER, K_RETRY_WHEN,
+  K_WITH_TAG, K_MAT_DEMAT, K_DONE_AS_OPT, K_LVWSS, K_ANY_SENDER, K_RETRY_WHEN, K_WHEN_ANY,
   K_COUNT
 };
 const char* kKindName[] = {"just", "just_error", "just_done", "leaf", "then", "upon_error", "upon_done", "let_value", "let_error",
                            "let_done", "finally", "sequence", "when_all", "stop_when", "unstoppable", "via", "on", "with_tag",
-                           "mat_demat", "done_as_opt", "lvwss", "any_sender_of", "retry_when"};
+                           "mat_demat", "done_as_opt", "lvwss", "any_sender_of", "retry_when", "when_any"};
 
 struct Node {
   int id = 0;
@@ -499,6 +500,10 @@ void build_node(World* w, int id) {
         });
       break;
     case K_STOP_WHEN: n.impl = make_node([a, b] { return unifex::stop_when(any_snd(a), unifex::then(any_snd(b), Discard{})); }); break;
+    case K_WHEN_ANY:
+      if (n.nchild == 2) n.impl = make_node([a, b] { return unifex::when_any(any_snd(a), any_snd(b)); });
+      else n.impl = make_node([a, b, c] { return unifex::when_any(any_snd(a), any_snd(b), any_snd(c)); });
+      break;
     case K_UNSTOPPABLE: n.impl = make_node([a] { return unifex::unstoppable(any_snd(a)); }); break;
     case K_VIA: { int cx = n.ctx; n.impl = make_node([a, cx] { return unifex::via(any_snd(a), sim_sched{cx}); }); break; }
     case K_ON: { int cx = n.ctx; n.impl = make_node([a, cx] { return unifex::on(sim_sched{cx}, any_snd(a)); }); break; }
@@ -556,6 +561,9 @@ int gen(World* w, int depth, int parent, int* budget) {
       if (wrap < 0) wrap = (int)usim_param_int("wrap", 0);
       int r = draw(wrap ? 4 : 24);
       if (r == 0) kind = K_ANY_SENDER;  // type-erased wrapper as an identity node (C18): often with wrap=1, occasionally otherwise
+      static int wany = -1;
+      if (wany < 0) wany = (int)usim_param_int("wany", 0);
+      if (wany && draw(5) == 0) kind = K_WHEN_ANY;  // (only with wany=1: keeps the tapes of older replays meaningful)
     }
     if (kind == K_LEAF && w->nleaves >= kMaxLeaves) kind = K_JUST;
   }
@@ -599,7 +607,7 @@ int gen(World* w, int depth, int parent, int* budget) {
       w->nodes[id].nchild = 3;
       break;
     }
-    case K_WHEN_ALL:
+    case K_WHEN_ALL: case K_WHEN_ANY:
       kid(0); kid(1);
       if (draw(3) == 0 && *budget > 1) kid(2);
       break;
@@ -694,10 +702,10 @@ bool stop_possibly_visible(World* w, TapRec* t) {
   for (TapRec* c = t; c->parent; c = c->parent) {
     TapRec* p = c->parent;
     Node& pn = w->nodes[p->node];
-    if (pn.kind != K_WHEN_ALL && pn.kind != K_STOP_WHEN) continue;
+    if (pn.kind != K_WHEN_ALL && pn.kind != K_STOP_WHEN && pn.kind != K_WHEN_ANY) continue;
     for (auto* s : w->taps) {
       if (s->parent != p || s == c || !s->completed) continue;
-      if (s->sig_enter < t->sig_enter && (pn.kind == K_STOP_WHEN || s->channel != CH_VALUE)) return true;
+      if (s->sig_enter < t->sig_enter && (pn.kind != K_WHEN_ALL || s->channel != CH_VALUE)) return true;
     }
   }
   return false;
@@ -833,6 +841,40 @@ void check_tap(World* w, TapRec* t, bool) {
       }
       break;
     }
+    case K_WHEN_ANY: {
+      // "always the completion result of the first sender to complete, even if done or error" (doc/api_reference.md)
+      TapRec* ch[3] = {child_done(c0, n0), child_done(c1, n1), n.nchild > 2 ? child_done(c2, n2) : nullptr};
+      int nc = n.nchild;
+      for (int i = 0; i < nc; ++i) if (!ch[i]) { fail("completed although a child has not"); return; }
+      if (relaxed && t->channel == CH_DONE) break;   // receiver stop has precedence
+      if (w->fault_injected) break;                  // a throwing Val copy while the result is stored turns it into an error
+      bool ok = false;
+      for (int i = 0; i < nc; ++i) {
+        bool could_be_first = true;
+        for (int j = 0; j < nc; ++j)
+          if (j != i && strictly_before(ch[j], ch[i])) could_be_first = false;
+        if (could_be_first && t->channel == ch[i]->channel && (t->channel == CH_DONE || t->payload == ch[i]->payload)) ok = true;
+      }
+      if (!ok && relaxed && t->channel == CH_VALUE) {
+        // recorded deviation: with a stop request visible on the receiver's token the inner when_all answers "done" whatever its
+        // children did (stop has precedence) and when_any's let_done turns a done into the value a lagging child managed to store
+        bool first_not_value = false, lagging_value = false;
+        for (int i = 0; i < nc; ++i) {
+          if (ch[i]->channel == CH_VALUE && ch[i]->payload == t->payload) lagging_value = true;
+          bool could_be_first = true;
+          for (int j = 0; j < nc; ++j) if (j != i && strictly_before(ch[j], ch[i])) could_be_first = false;
+          if (could_be_first && ch[i]->channel != CH_VALUE) first_not_value = true;
+        }
+        if (first_not_value && lagging_value) {
+          usim_report("c05.outcome", "node %d (when_any) delivered the value %ld of a lagging child although the first child completed with error and a stop request was visible "
+                      "(the inner when_all answers done, when_any's let_done turns it into the stored value)", t->node, t->payload);
+          break;
+        }
+      }
+      if (!ok) fail("not the result of the first child to complete");
+      else usim_probe("when_any outcome checked");
+      break;
+    }
     case K_STOP_WHEN: {
       TapRec* s = child_done(c0, n0);
       TapRec* g = child_done(c1, n1);
@@ -952,10 +994,10 @@ bool other_stop_in_flight(World* w, TapRec* leaf, uint64_t at, TapRec* except_tr
   for (TapRec* c = leaf; c && c->parent; c = c->parent) {
     TapRec* p = c->parent;
     Node& pn = w->nodes[p->node];
-    if (pn.kind != K_WHEN_ALL && pn.kind != K_STOP_WHEN) continue;
+    if (pn.kind != K_WHEN_ALL && pn.kind != K_STOP_WHEN && pn.kind != K_WHEN_ANY) continue;
     for (auto* s : w->taps) {
       if (s->parent != p || s == c || s == except_trigger || !s->completed) continue;
-      bool triggers = pn.kind == K_STOP_WHEN || s->channel != CH_VALUE;
+      bool triggers = pn.kind != K_WHEN_ALL || s->channel != CH_VALUE;
       if (triggers && s->sig_enter < at && (!s->sig_exit || s->sig_exit > at)) return true;
     }
   }
@@ -1153,12 +1195,12 @@ void body_expr(void*) {
     // C04: losers of when_all / stop_when are told to stop
     for (auto* t : w->taps) {
       Node& n = w->nodes[t->node];
-      if (n.kind != K_WHEN_ALL && n.kind != K_STOP_WHEN) continue;
+      if (n.kind != K_WHEN_ALL && n.kind != K_STOP_WHEN && n.kind != K_WHEN_ANY) continue;
       for (int ci = 0; ci < n.nchild; ++ci) {
         TapRec* cs[4];
         int cn = child_taps(w, n.child[ci], t, cs, 4);
         if (!cn || !cs[0]->completed) continue;
-        bool triggers = n.kind == K_STOP_WHEN ? true : cs[0]->channel != CH_VALUE;
+        bool triggers = n.kind != K_WHEN_ALL ? true : cs[0]->channel != CH_VALUE;
         if (!triggers) continue;
         // every leaf in a sibling subtree that completed after this child's completion was fully delivered must have seen stop
         for (auto* r : w->leafrecs) {
